@@ -450,3 +450,16 @@ func C01_Gen() {
 	agree(p.Name, p.Src, map[string]tengo.Object{"a": &tengo.Int{Value: a}, "b": &tengo.Int{Value: b}, "c": co})
 	vf.Reach("gen")
 }
+
+// C01_Alias: the aliasing family (alias.go): a container, a value derived from
+// it by a builtin, an operator, a call or a literal, a write through the source
+// or through the derived value (or a second derivation from the same source),
+// then both are read and compared with the reference semantics: which derived
+// values share storage with their source is part of the language.
+func C01_Alias() {
+	ps := aliasProgs()
+	src := ps[vf.Choice("prog", len(ps))]
+	a, b := vf.Int64("a"), vf.Int64("b")
+	agree(src, src, map[string]tengo.Object{"a": &tengo.Int{Value: a}, "b": &tengo.Int{Value: b}})
+	vf.Reach("alias")
+}
